@@ -283,6 +283,27 @@ export async function run(ctx) {
     ctx.count("string_injectivity_pool", pool.size);
   }
 
+  // (e) the digest does not depend on the locale of the process: the same validators hashed in child
+  // processes started under different LC_ALL / LANG settings
+  if (ctx.shard === 0) {
+    const { spawnSync } = await import("node:child_process");
+    const { RT_DIR } = await import("../lib/loader.mjs");
+    const script = new URL("../lib/locale_probe.mjs", import.meta.url).pathname;
+    const outs = new Map();
+    for (const l of ["en_US.UTF-8", "sv_SE.UTF-8", "da_DK.UTF-8", "tr_TR.UTF-8", "C"]) {
+      const r = spawnSync(process.execPath, [script, RT_DIR], { env: { ...process.env, LC_ALL: l, LANG: l }, encoding: "utf8", timeout: 120000 });
+      if (r.status !== 0) throw new Error("C13 locale probe failed under " + l + ": " + String(r.stderr).slice(0, 300));
+      outs.set(l, JSON.parse(r.stdout.trim().split("\n").pop()));
+      ctx.judged();
+      ctx.count("locale_probe_processes");
+    }
+    const ref = outs.get("en_US.UTF-8");
+    for (const [l, o] of outs)
+      for (const k of Object.keys(ref))
+        if (o[k] !== ref[k])
+          ctx.violation({ signature: `digest-depends-on-process-locale|${k}|${l.split(".")[0]}`, clause: "digest-is-a-function-of-the-validator", detail: `${k}: ${String(ref[k]).slice(0, 80)} under en_US, ${String(o[k]).slice(0, 80)} under ${l}`, replay: { kind: "note", text: `locale probe ${k} ${l}` } });
+  }
+
   // (c'') recursion grid: types that differ only in the target of a back-reference
   if (ctx.shard === 0) {
     for (const g of recursionGrid()) {
